@@ -178,9 +178,10 @@ class RealDom:
                 r = a.r * z3.RealVal(1 / b.r.as_fraction())
             elif s.div == 'pure':
                 key = (a.r.get_id(), b.r.get_id())
-                q = s.pure_cache.get(key)
+                ent = s.pure_cache.get(key); q = None
+                if ent is not None and ent[0].eq(a.r) and ent[1].eq(b.r): q = ent[2]
                 if q is None:
-                    s.cnt += 1; q = z3.Real(f'q!{s.cnt}'); s.hyp += [q * b.r == a.r]; s.nz.append(b.r); s.pure_cache[key] = q
+                    s.cnt += 1; q = z3.Real(f'q!{s.cnt}'); s.hyp += [q * b.r == a.r]; s.nz.append(b.r); s.pure_cache[key] = (a.r, b.r, q)
                 return FV(a.w, r=q, depth=s._d(a, b) + 1)
             else:
                 s.nz.append(b.r); r = a.r / b.r
@@ -227,9 +228,10 @@ class RealDom:
             if n >= 0 and math.isqrt(n) ** 2 == n and math.isqrt(d) ** 2 == d:
                 return FV(a.w, r=z3.RealVal(Fraction(math.isqrt(n), math.isqrt(d))), depth=a.depth + 1)
         key = ('sqrt', a.r.get_id())
-        q = s.pure_cache.get(key)
+        ent = s.pure_cache.get(key); q = None
+        if ent is not None and ent[0].eq(a.r): q = ent[1]
         if q is None:
-            s.cnt += 1; q = z3.Real(f'r!{s.cnt}'); s.hyp += [q * q == a.r, q >= 0]; s.pure_cache[key] = q
+            s.cnt += 1; q = z3.Real(f'r!{s.cnt}'); s.hyp += [q * q == a.r, q >= 0]; s.pure_cache[key] = (a.r, q)
             s.nz.append(('nonneg', a.r))
         return FV(a.w, r=q, depth=a.depth + 1)
 
